@@ -341,7 +341,17 @@ def net_loop():
     return net
 
 
-NETS = {"water": net_water, "gas": net_gas, "loop": net_loop}
+def net_pumploop():
+    """circulation pump loop without prescribed flows: a negative lift drives the flow backwards through the pump"""
+    net = pp.create_empty_network(fluid="water")
+    j = pp.create_junctions(net, 3, 5, 340)
+    pp.create_circ_pump_const_pressure(net, j[2], j[0], 5, 0.5, 350)
+    pp.create_pipe_from_parameters(net, j[0], j[1], 0.2, 60, u_w_per_m2k=10)
+    pp.create_pipe_from_parameters(net, j[1], j[2], 0.2, 60, u_w_per_m2k=10)
+    return net
+
+
+NETS = {"water": net_water, "gas": net_gas, "loop": net_loop, "pumploop": net_pumploop}
 # edits: (name, apply, undo)
 EDITS = {
     "infeasible_load": (lambda n: n.sink.__setitem__("mdot_kg_per_s", n.sink.mdot_kg_per_s * 1e4) if len(n.sink) else
@@ -357,7 +367,7 @@ CALLS = [
     {"mode": "sequential", "nonlinear_method": "automatic", "iter": 30},
     {"mode": "hydraulics", "use_numba": False, "friction_model": "colebrook"},
 ]
-EDIT_OPS = ["break", "unbreak", "cut_feeder", "restore_feeder", "nan_param", "restore_param"]
+EDIT_OPS = ["break", "unbreak", "cut_feeder", "restore_feeder", "nan_param", "restore_param", "reverse_pump"]
 
 
 def apply_edit(net, name, saved):
@@ -365,14 +375,19 @@ def apply_edit(net, name, saved):
         if len(net.sink):
             saved["sink"] = net.sink.mdot_kg_per_s.copy()
             net.sink["mdot_kg_per_s"] = net.sink.mdot_kg_per_s * 3e4
-        else:
+        elif len(net.heat_consumer) if "heat_consumer" in net else False:
             saved["hc"] = net.heat_consumer.controlled_mdot_kg_per_s.copy()
             net.heat_consumer["controlled_mdot_kg_per_s"] = 4e4
+        else:
+            saved["len"] = net.pipe.length_km.copy()
+            net.pipe["length_km"] = np.nan
     elif name == "unbreak":
         if "sink" in saved:
             net.sink["mdot_kg_per_s"] = saved.pop("sink")
         if "hc" in saved:
             net.heat_consumer["controlled_mdot_kg_per_s"] = saved.pop("hc")
+        if "len" in saved:
+            net.pipe["length_km"] = saved.pop("len")
     elif name == "cut_feeder":
         if len(net.ext_grid):
             net.ext_grid["in_service"] = False
@@ -383,6 +398,9 @@ def apply_edit(net, name, saved):
             net.ext_grid["in_service"] = True
         else:
             net.circ_pump_pressure["in_service"] = True
+    elif name == "reverse_pump":
+        if "circ_pump_pressure" in net and len(net.circ_pump_pressure):
+            net.circ_pump_pressure["plift_bar"] = -net.circ_pump_pressure.plift_bar.abs()
     elif name == "nan_param":
         saved["d"] = net.pipe.inner_diameter_mm.copy()
         net.pipe.loc[net.pipe.index[0], "inner_diameter_mm"] = np.nan
@@ -519,6 +537,10 @@ def history_cases(tier):
     for netname in NETS:
         for h in range(1, depth + 1):
             menus = [steps] * min(h, 2) + ([third] if h == 3 else [])
+            if netname == "pumploop":
+                # the pump-loop net exists for the reverse-flow failure: restricted menu
+                small = [(e, c) for e in (None, "reverse_pump", "cut_feeder", "break") for c in (0, 1, 2)]
+                menus = [small] * min(h, 2) + ([[(None, 0), ("reverse_pump", 1)]] if h == 3 else [])
             for seq in itertools.product(*menus):
                 ops = []
                 for e, c in seq:
